@@ -73,17 +73,19 @@ def R_same(a, b):
 
 
 def _mbt(ctx):
-    nb = 700 if ctx.quick else 10000
+    nb = 1200 if ctx.quick else 10000
     depth = 30 if ctx.quick else 40
     nreq = 7 if ctx.quick else 10
     behs = []
-    # the general universe, and two focused ones (a header-conditioned entry ahead of a plain one; a filtered rule ahead of
-    # the owning rule), so that every history shape the cache is sensitive to occurs often
+    # the general universe, and focused ones (a header-conditioned entry ahead of a plain one; a filtered rule ahead of
+    # the owning rule; sibling filters; method-restricted entries ahead of unrestricted ones for the same URL with requests
+    # that differ in the method only), so that every history shape the cache is sensitive to occurs often
     for k, (share, reqs, templates, shells, sfs, plans) in enumerate((
-            (0.35, "C12SimReqs", "C12SimTemplates", "C12SimShells", "C12SimServerFilters", "PlansC12"),
+            (0.2, "C12SimReqs", "C12SimTemplates", "C12SimShells", "C12SimServerFilters", "PlansC12"),
             (0.2, "C12ReqsA", "C12HdrFocus", "C12FocusShells", "C12NoServerFilter", "PlansHdrFocus"),
             (0.2, "C12ReqsA", "C12RuleFocus", "C12FocusShells", "C12NoServerFilter", "PlansRuleFocus"),
-            (0.25, "C05FocusReqs", "C12FilterFocus", "C05FocusShells", "C12SimServerFilters", "PlansFilterFocus"))):
+            (0.15, "C05FocusReqs", "C12FilterFocus", "C05FocusShells", "C12SimServerFilters", "PlansFilterFocus"),
+            (0.25, "C12MethReqs", "C12MethFocus", "C12FocusShells", "C12NoServerFilter", "PlansMethFocus"))):
         behs += ctx.tlc_simulate("HttpRouter_Gen", R.gen_cfg(reqs, nreq, True, templates, shells, sfs, plans),
                                  num=int(nb * share), depth=depth, timeout=1200, seed=ctx.seed * 10 + k)
     behs = [b for b in behs if b and b[0].get("a") == "cfg" and len(b) > 1]
@@ -140,7 +142,7 @@ def _mbt(ctx):
 
 
 def _tv(ctx):
-    ncfg, lo, hi = (45, 20, 120) if ctx.quick else (900, 20, 200)
+    ncfg, lo, hi = (75, 20, 120) if ctx.quick else (900, 20, 200)
     raw = ctx.path("c12_trace_raw.ndjson")
     rc, out = ctx.go_test(R.PKG, "^TestVerifC12Trace$", env={"VERIF_OUT": raw, "VERIF_N": ncfg, "VERIF_MINLEN": lo, "VERIF_MAXLEN": hi},
                           timeout=1200)
